@@ -6,6 +6,8 @@ simulates a *new* frame), `advanceLockstepFrame` is `advance_lockstep_frame`, `l
 `SyncLayer::load_frame` (the only producer of LoadGameState requests).
 -/
 import GgrsModel.Model.P2P
+import GgrsModel.Proofs.Shape
+import GgrsModel.Proofs.Session
 
 namespace Ggrs
 
@@ -97,4 +99,99 @@ theorem C04_load (s s' : SyncLayer) (f : Frame) (r : Request) (h : s.loadFrame f
   · simp only [h1, Bool.false_eq_true, if_false] at h; cases h
 
 end SyncLayer
+end Ggrs
+
+namespace Ggrs
+namespace P2P
+
+theorem mapM_all {α β} (f : α → M β) (P : β → Prop) (hf : ∀ a b, f a = .ok b → P b) :
+    ∀ (l : List α) (l' : List β), l.mapM f = .ok l' → ∀ b ∈ l', P b := by
+  intro l
+  induction l with
+  | nil =>
+    intro l' h
+    simp only [List.mapM_nil] at h
+    have := pure_ok h; subst this
+    intro b hb; cases hb
+  | cons a rest ih =>
+    intro l' h
+    simp only [List.mapM_cons] at h
+    obtain ⟨b, hb, h⟩ := bind_ok h
+    obtain ⟨bs, hbs, h⟩ := bind_ok h
+    have := pure_ok h; subst this
+    intro x hx
+    rcases List.mem_cons.mp hx with rfl | hin
+    · exact hf a _ hb
+    · exact ih bs hbs x hin
+
+/-- **C04, lockstep.** With a prediction window of 0 a call's `advance_lockstep_frame` never issues
+SaveGameState or LoadGameState: it appends nothing — and then `current_frame()` is unchanged — or
+exactly one AdvanceFrame whose inputs are all Confirmed or Disconnected, never Predicted, and the
+frame moves on by one. -/
+theorem C04_lockstep (s s' : P2P) (now : Nat) (reqs reqs' : List Request)
+    (h : s.advanceLockstepFrame now reqs = .ok (s', reqs')) :
+    (reqs' = reqs ∧ s'.sync.currentFrame = s.sync.currentFrame) ∨
+    (∃ inputs, reqs' = reqs ++ [.advance inputs] ∧ s'.sync.currentFrame = s.sync.currentFrame + 1 ∧
+      ∀ i ∈ inputs, i.2 = .confirmed ∨ i.2 = .disconnected) := by
+  unfold advanceLockstepFrame at h
+  obtain ⟨s1, hreg, h⟩ := bind_ok h
+  obtain ⟨c1, _, h⟩ := bind_ok h
+  obtain ⟨r2, hstep, h⟩ := bind_ok h
+  obtain ⟨s2, reqs2⟩ := r2
+  simp only at h
+  obtain ⟨c2, _, h⟩ := bind_ok h
+  obtain ⟨s3, hspec, h⟩ := bind_ok h
+  obtain ⟨sy4, hset, h⟩ := bind_ok h
+  have := pure_ok h
+  simp only [Prod.mk.injEq] at this
+  obtain ⟨hs', hr'⟩ := this
+  have hk1 := registerLocalInputs_cells s s1 now hreg
+  have hc3 := sendConfirmed_sameCore _ _ _ _ hspec
+  obtain ⟨_, hcur4⟩ := setLastConfirmed_cells _ _ _ _ hset
+  have hfin : s'.sync.currentFrame = s2.sync.currentFrame := by
+    rw [← hs']; show sy4.currentFrame = _; rw [hcur4, hc3.sync]
+  unfold lockstepAdvance at hstep
+  split at hstep
+  · obtain ⟨cis, _, hstep⟩ := bind_ok hstep
+    obtain ⟨inputs, hmap, hstep⟩ := bind_ok hstep
+    have := pure_ok hstep
+    simp only [Prod.mk.injEq] at this
+    obtain ⟨hs2, hr2⟩ := this
+    right
+    refine ⟨inputs, by rw [← hr', ← hr2], ?_, ?_⟩
+    · rw [hfin, ← hs2]; show s1.sync.currentFrame + 1 = _; rw [hk1.2.1]
+    · apply mapM_all (s1.lockstepInput s1.sync.currentFrame) (fun b => b.2 = .confirmed ∨ b.2 = .disconnected) ?_ _ _ hmap
+      intro a b hab
+      unfold lockstepInput at hab
+      obtain ⟨_, hab⟩ := ensure_bind_ok hab
+      have := pure_ok hab
+      rw [← this]
+      simp only
+      split
+      · exact Or.inr rfl
+      · exact Or.inl rfl
+  · have := pure_ok hstep
+    simp only [Prod.mk.injEq] at this
+    obtain ⟨hs2, hr2⟩ := this
+    left
+    exact ⟨by rw [← hr', ← hr2], by rw [hfin, ← hs2, hk1.2.1]⟩
+
+end P2P
+end Ggrs
+
+namespace Ggrs
+
+/-- **C04, the window for every schedule (no disconnected players).** After any interleaving of
+remote-input arrivals and rollback-mode `advance_frame` calls, a call that simulates a new frame
+`c` leaves every player's stream `vals_p` with `c - (|vals_p| - 1) ≤ max_prediction`: the new
+frame lies at most `max_prediction` frames beyond the newest frame for which the session holds
+every player's real input. (Per call, all states: `C04_window`, `C04_load`, `C04_lockstep`.) -/
+theorem C04_window_all (x y : P2P × TLState) (h0 : ∃ gh, SessInv x.1 gh x.2 []) (hrun : SStar x y)
+    (now : Nat) (s' : P2P) (reqs' : List Request) (hadv : y.1.advanceRollbackFrame now [] = .ok (s', reqs'))
+    (hnew : s'.sync.currentFrame ≠ y.1.sync.currentFrame) :
+    ∃ gh', SessInv s' gh' y.2 reqs' ∧ ∀ p, p < y.1.sync.queues.length →
+      y.1.sync.currentFrame - ((gh'.specs p).vals.length - 1 : Int) ≤ y.1.maxPrediction := by
+  obtain ⟨gh, h⟩ := SessInv_run x y h0 hrun
+  exact window_all y.1 s' gh y.2 [] reqs' now h hadv hnew
+
 end Ggrs
